@@ -25,14 +25,24 @@ theorem getOpcode_byte (b : UInt8) : ((b <<< (4 : UInt8)) >>> (4 : UInt8)).toNat
 theorem getLengthCode_byte (b : UInt8) : ((b <<< (1 : UInt8)) >>> (1 : UInt8)).toNat = Frame.getLengthCode b.toNat := by
   revert b; apply u8_forall; decide +kernel
 
-theorem GetFIN_eq (c : List UInt8) : Trans.frameHeader_GetFIN c = Frame.getFIN (goIdx c 0).toNat := getFIN_byte _
-theorem GetRSV1_eq (c : List UInt8) : Trans.frameHeader_GetRSV1 c = Frame.getRSV1 (goIdx c 0).toNat := getRSV1_byte _
-theorem GetRSV2_eq (c : List UInt8) : Trans.frameHeader_GetRSV2 c = Frame.getRSV2 (goIdx c 0).toNat := getRSV2_byte _
-theorem GetRSV3_eq (c : List UInt8) : Trans.frameHeader_GetRSV3 c = Frame.getRSV3 (goIdx c 0).toNat := getRSV3_byte _
-theorem GetOpcode_eq (c : List UInt8) : (Trans.frameHeader_GetOpcode c).toNat = Frame.getOpcode (goIdx c 0).toNat := getOpcode_byte _
-theorem GetMask_eq (c : List UInt8) : Trans.frameHeader_GetMask c = Frame.getMask (goIdx c 1).toNat := getFIN_byte _
-theorem GetLengthCode_eq (c : List UInt8) : (Trans.frameHeader_GetLengthCode c).toNat = Frame.getLengthCode (goIdx c 1).toNat :=
-  getLengthCode_byte _
+/-! The getters are proved equal to the model by evaluating BOTH sides on all 256 values of the byte they read: the
+proofs do not depend on how the Go code spells the bit extraction (`x << 1 >> 7`, `x & 0x40 != 0`, …), only on
+which byte it reads. -/
+
+theorem GetFIN_eq (c : List UInt8) : Trans.frameHeader_GetFIN c = Frame.getFIN (goIdx c 0).toNat := by
+  unfold Trans.frameHeader_GetFIN; generalize goIdx c 0 = b; revert b; apply u8_forall; decide +kernel
+theorem GetRSV1_eq (c : List UInt8) : Trans.frameHeader_GetRSV1 c = Frame.getRSV1 (goIdx c 0).toNat := by
+  unfold Trans.frameHeader_GetRSV1; generalize goIdx c 0 = b; revert b; apply u8_forall; decide +kernel
+theorem GetRSV2_eq (c : List UInt8) : Trans.frameHeader_GetRSV2 c = Frame.getRSV2 (goIdx c 0).toNat := by
+  unfold Trans.frameHeader_GetRSV2; generalize goIdx c 0 = b; revert b; apply u8_forall; decide +kernel
+theorem GetRSV3_eq (c : List UInt8) : Trans.frameHeader_GetRSV3 c = Frame.getRSV3 (goIdx c 0).toNat := by
+  unfold Trans.frameHeader_GetRSV3; generalize goIdx c 0 = b; revert b; apply u8_forall; decide +kernel
+theorem GetOpcode_eq (c : List UInt8) : (Trans.frameHeader_GetOpcode c).toNat = Frame.getOpcode (goIdx c 0).toNat := by
+  unfold Trans.frameHeader_GetOpcode; generalize goIdx c 0 = b; revert b; apply u8_forall; decide +kernel
+theorem GetMask_eq (c : List UInt8) : Trans.frameHeader_GetMask c = Frame.getMask (goIdx c 1).toNat := by
+  unfold Trans.frameHeader_GetMask; generalize goIdx c 1 = b; revert b; apply u8_forall; decide +kernel
+theorem GetLengthCode_eq (c : List UInt8) : (Trans.frameHeader_GetLengthCode c).toNat = Frame.getLengthCode (goIdx c 1).toNat := by
+  unfold Trans.frameHeader_GetLengthCode; generalize goIdx c 1 = b; revert b; apply u8_forall; decide +kernel
 
 theorem isDataFrame_eq (op : UInt8) : Trans.Opcode_isDataFrame op = decide (op.toNat ≤ Facts.dataFrameMaxOpcode) := by
   revert op; apply u8_forall; decide +kernel
